@@ -51,6 +51,7 @@ type InvRes struct {
 	TipAfter    string   `json:"tip_after"`              // after the mutant: unchanged | forkpoint | mutant | other
 	SeqProblems []string `json:"seq_problems,omitempty"` // C26: the sequence log after the whole case (rejected mutant, genuine block, child)
 	SeqDeletes  int      `json:"seq_deletes"`
+	Grown       int      `json:"grown,omitempty"` // blocks connected after the genuine block\'s child
 }
 
 // InvTreeSpec: trunk of 14 (heights 1..14), heavy side branch A13,A14 forking at height 12.
@@ -223,7 +224,12 @@ func txHashes(b *types.Block) string {
 func RunInvalid(dir string, t *Tree, cs InvCase) InvRes {
 	res := InvRes{Case: cs}
 	os.RemoveAll(dir)
-	n := node.New(node.Options{DataDir: dir})
+	// every second case runs with a recent-block cache of 2 entries, so that blocks leave it within the case
+	n := node.New(node.Options{DataDir: dir, Cfg: func(c *types.Config) {
+		if cs.Index%2 == 1 {
+			c.BlockChain.DefCacheSize = 2
+		}
+	}})
 	defer func() {
 		n.Close()
 		os.RemoveAll(dir)
@@ -319,6 +325,27 @@ func RunInvalid(dir string, t *Tree, cs InvCase) InvRes {
 	hdr, _ = n.Chain.ProcGetLastHeaderMsg()
 	if hdr == nil || !bytes.Equal(hdr.Hash, cb.Hash(n.Cfg)) {
 		res.Poison = append(res.Poison, fmt.Sprintf("child of the genuine block not accepted as best tip: err=%v", cerr))
+	}
+	// the chain grows further (the genuine block leaves the recent-block cache when that is small): the body served and
+	// persisted under the hash must still be the genuine one
+	if cs.Pos == "tip" && cerr == nil {
+		grown := 0
+		for i := child + 1; i < 14; i++ {
+			if n.Deliver(t.Block(i), true, "peerB") == nil {
+				grown++
+			}
+		}
+		res.Grown = grown
+		if bd, err := n.Chain.LoadBlockByHash(gh); err != nil || bd == nil {
+			res.Poison = append(res.Poison, fmt.Sprintf("after the chain grew by %d blocks the genuine block is not loadable by hash: %v", grown, err))
+		} else if txHashes(bd.Block) != txHashes(genuine) {
+			res.Poison = append(res.Poison, fmt.Sprintf("after the chain grew by %d blocks LoadBlockByHash %x serves a body that is not the genuine one (txs %s, genuine %s)", grown, gh[:5], txHashes(bd.Block), txHashes(genuine)))
+		}
+		if bd, err := n.Chain.GetBlock(genuine.Height); err != nil || bd == nil {
+			res.Poison = append(res.Poison, fmt.Sprintf("after the chain grew by %d blocks height %d is not readable: %v", grown, genuine.Height, err))
+		} else if txHashes(bd.Block) != txHashes(genuine) {
+			res.Poison = append(res.Poison, fmt.Sprintf("after the chain grew by %d blocks GetBlock(%d) serves a body that is not the genuine one (txs %s, genuine %s)", grown, genuine.Height, txHashes(bd.Block), txHashes(genuine)))
+		}
 	}
 	// C26 oracle on the final state: the sequence log replays to the best chain although a block was rejected on the way
 	sf := TakeSnap(n, nil, nil, false)
